@@ -286,15 +286,88 @@ Definition pwf_insert (w : pwf) (out : arr S) (weight : S) : result (arr S) := a
 (* ---- specification side: the pointwise transmission of a plane with an array mask ---- *)
 Definition amp_at (a : aattr) (i j : Z) : S := match a with AmpS v => v | AmpA A => get A i j end.
 Definition opd_at (o : oattr) (i j : Z) : Qc := match o with OpdS q => q | OpdA oa => pget oa i j end.
+(* a mask read at an arbitrary index: not set outside the array *)
+Definition mask_at (a : garr bool) (i j : Z) : bool := inr (pnr a) i && inr (pnc a) j && pget a i j.
 (* number of segment masks that contain sample (i, j), as a scalar *)
 Definition cover (ms : list (garr bool)) (i j : Z) : S :=
-  fold_right (fun m acc => (kofb (inr (pnr m) i && inr (pnc m) j && pget m i j) + acc)%K) k0 ms.
+  fold_right (fun m acc => (kofb (mask_at m i j) + acc)%K) k0 ms.
 Definition masks_of (m : pmask) : list (garr bool) :=
   match m with PM0 _ => [] | PM2 a => [a] | PM3 _ _ l => l end.
 (* amplitude * exp(2 pi i opd / lambda) * [mask] at plane coordinate (r, c) (origin = sample floor(n/2)) *)
 Definition transmission (P : plane) (lam : Qc) (sr sc : Z) (r c : Z) : S :=
   let i := r + sr / 2 in let j := c + sc / 2 in
   (amp_at (pl_amp P) i j * phase lam (opd_at (pl_opd P) i j) * cover (masks_of (pl_mask P)) i j)%K.
+
+(* ---- vocabulary of the theorems (Proofs/PlaneP.v, Properties/C07.v, Properties/C03.v) ---- *)
+(* data of positive dimensions (0-d data always) *)
+Definition fwell (f : field S) : Prop :=
+  match fd f with D0 _ => True | D2 a => 0 < nr a /\ 0 < nc a end.
+(* a field with 2-d data of positive dimensions *)
+Definition fsized (f : field S) : Prop :=
+  match fd f with D2 d => 0 < nr d /\ 0 < nc d | D0 _ => False end.
+
+(* array attributes have the shape of the mask *)
+Definition attr_compat (P : plane) (n m : Z) : Prop :=
+  (match pl_amp P with AmpA A => nr A = n /\ nc A = m | AmpS _ => True end) /\
+  (match pl_opd P with OpdA o => pnr o = n /\ pnc o = m | OpdS _ => True end).
+Definition slice_big (s : pslice) : Prop :=
+  match s with SBox r0 r1 c0 c1 => (r1 - r0) * (c1 - c0) <> 1 | SAll => True end.
+
+(* shape of a plane with an array mask (a one-layer cube has no usable shape) *)
+Definition plane_dims (mk : pmask) : option (Z * Z) :=
+  match mk with
+  | PM0 _ => None
+  | PM2 a => Some (pnr a, pnc a)
+  | PM3 n m l => if Nat.eqb (length l) 1 then None else Some (n, m)
+  end.
+
+(* a plane with an array mask whose slices are those computed from the mask (the constructor's
+   invariant), whose array attributes have the mask's shape and whose slices hold more than one sample *)
+Record plane_ok (P : plane) (n m : Z) : Prop := {
+  ok_dims : plane_dims (pl_mask P) = Some (n, m);
+  ok_slices : plane_slice (pl_mask P) = Ok (pl_slices P);
+  ok_layers : forall a, In a (masks_of (pl_mask P)) -> pnr a = n /\ pnc a = m;
+  ok_attr : attr_compat P n m;
+  ok_big : Forall slice_big (pl_slices P)
+}.
+
+(* sum of the fields, one-element fields (the 0-d plane wave) read as infinite constants *)
+Definition ec_sum (fs : list (field S)) (r c : Z) : S :=
+  fold_right (fun f acc => (embed_const f r c + acc)%K) k0 fs.
+
+Definition plane_scalar (P : plane) (v : S) (q : Qc) : Prop :=
+  pl_amp P = AmpS v /\ pl_opd P = OpdS q /\ (exists b, pl_mask P = PM0 b) /\ pl_slices P = [SAll].
+
+(* one-element fields of the wavefront sit at the origin (the plane wave of a fresh Wavefront) *)
+Definition origin_consts (fs : list (field S)) : Prop :=
+  forall f, In f fs -> (dsize (fd f) =? 1) = true -> offr f = 0 /\ offc f = 0.
+
+Definition disjoint_masks (l : list (garr bool)) : Prop :=
+  ForallOrdPairs (fun a b => forall i j, mask_at a i j && mask_at b i j = false) l.
+
+(* the segmented and the monolithic description of one aperture: segment masks pairwise disjoint
+   (bounding boxes may overlap), the global mask their union, same amplitude and OPD *)
+Definition partition_of (Pseg Pmono : plane) (n m : Z) : Prop :=
+  pl_amp Pseg = pl_amp Pmono /\ pl_opd Pseg = pl_opd Pmono /\
+  plane_ok Pseg n m /\ plane_ok Pmono n m /\
+  disjoint_masks (masks_of (pl_mask Pseg)) /\
+  exists g, pl_mask Pmono = PM2 g /\
+    forall i j, mask_at g i j = existsb (fun a => mask_at a i j) (masks_of (pl_mask Pseg)).
+
+Definition no_ones (fs : list (field S)) : Prop := forall f, In f fs -> fwell f /\ (dsize (fd f) =? 1) = false.
+
+Inductive regular_chain : list (plane) -> pwf -> pwf -> Prop :=
+| rc_nil w : regular_chain [] w w
+| rc_cons P ps w w' w'' : plane_multiply P w = Ok w' -> no_ones (pw_data w') -> regular_chain ps w' w'' ->
+    regular_chain (P :: ps) w w''.
+
+Definition same_optics (P1 P2 : plane) : Prop :=
+  exists n m, plane_ok P1 n m /\ plane_ok P2 n m /\
+    forall lam r c, transmission P1 lam n m r c = transmission P2 lam n m r c.
+Definition wf_equiv (w1 w2 : pwf) : Prop :=
+  pw_lam w1 = pw_lam w2 /\ pw_shape w1 = pw_shape w2 /\
+  (forall f, In f (pw_data w1) -> fwell f) /\ (forall f, In f (pw_data w2) -> fwell f) /\
+  forall r c, ec_sum (pw_data w1) r c = ec_sum (pw_data w2) r c.
 End Plane.
 
 Arguments AmpS {S}. Arguments AmpA {S}. Arguments MNone {S}. Arguments MS {S}. Arguments M2 {S}. Arguments M3 {S}.
@@ -307,3 +380,7 @@ Arguments dmul {S}. Arguments dforce {S}. Arguments phasor {S}. Arguments phasor
 Arguments keep {S}. Arguments mul_fields {S}. Arguments plane_multiply {S}. Arguments insert0 {S}. Arguments fold0 {S}.
 Arguments pwf_field {S}. Arguments pwf_intensity {S}. Arguments pwf_insert {S}. Arguments amp_at {S}.
 Arguments cover {S}. Arguments transmission {S}.
+Arguments mask_at : simpl never.
+Arguments fwell {S}. Arguments fsized {S}. Arguments attr_compat {S}. Arguments plane_ok {S}. Arguments ec_sum {S}.
+Arguments plane_scalar {S}. Arguments origin_consts {S}. Arguments partition_of {S}. Arguments no_ones {S}.
+Arguments regular_chain {S}. Arguments same_optics {S}. Arguments wf_equiv {S}.
